@@ -611,10 +611,11 @@ class CircuitFinderSat:
 
             gate_tt = []
             for p, q in itertools.product(range(2), repeat=2):
+                # A gate type variable may be absent from the formula (and so from
+                # the model) when every row is a don't care: any value will do.
                 if self._gate_type_variable(gate, p, q) in model:
                     gate_tt.append(True)
                 else:
-                    assert -self._gate_type_variable(gate, p, q) in model
                     gate_tt.append(False)
 
             first_predecessor_str = (
